@@ -88,7 +88,7 @@ def int_format_ops(rng, scale):
         for _ in range(600 * scale):
             strs.append("".join(rng.choice(a) for _ in range(rng.randint(4, 8))))
         big = ["127", "128", "-128", "-129", "255", "256", "0255", "0x7f", "0x80", "0xff", "0x100", "0d127", "0d128",
-               "-0d128", "-0d129", "127h", "128h", "0d127h", "00000000000000000000127", "0d00127", "65535", "65536",
+               "-0d128", "-0d129", "127h", "128h", "0d127h", "00000000000000000000127", "0d00127", "00x1f", "+000X1", "-00x1", "00d12", "000d7h", "65535", "65536",
                "-32768", "-32769", "4294967295", "4294967296", "18446744073709551615", "18446744073709551616",
                "-9223372036854775808", "-9223372036854775809", "0xffffffffffffffff", "0x10000000000000000"]
         for s in strs + big:
